@@ -2,6 +2,7 @@ import HappyProofs.C09.ResourceSpec
 import HappyProofs.C09.SyncInv
 import HappyProofs.C09.PoolInv
 import HappyProofs.C09.ConcInv
+import HappyProofs.C09.ExtraProps
 /-!
 # C09 — property theorems
 
@@ -30,37 +31,85 @@ example : judge 2 false {} (obsTrace (St.init 2)
     [.acquire 0 2, .acquire 1 1, .acquire 2 1, .tryAcquire 3 1, .release 0, .release 0, .release 1, .acquire 4 5]) = none := by
   decide
 
-/-- the judge is not vacuous: it rejects an over-admitting trace -/
-example : judge 1 false {} [⟨0, .acq 0 1, .granted, [], 0, 0⟩, ⟨0, .acq 1 1, .granted, [], 0, 0⟩]
+/-- a trace with capacity changes: reduced below the held amount (over-committed, `available` = −2),
+    nothing granted meanwhile, FIFO wake-up on the increase -/
+example : judge 4 false {} (obsTrace (St.init 4)
+    [.acquire 0 1, .acquire 1 1, .acquire 2 1, .acquire 3 1, .setCapacity 2, .acquire 4 1, .release 0, .tryAcquire 5 1,
+     .release 1, .release 2, .setCapacity 0, .setCapacity 3, .acquire 6 3, .release 3, .release 4]) = none := by
+  decide
+
+/-- the judge rejects a `set_capacity` that forgets the deficit (available clamped at 0) -/
+example : judge 4 false {} [⟨0, .acq 0 3, .granted, [], 1, 0, some 4⟩, ⟨0, .setcap 2, .resized, [], 0, 0, some 2⟩]
+    = some "resource/conservation/held-plus-available" := by decide
+
+/-- … and a grant handed out while the resource is over-committed -/
+example : judge 4 false {} [⟨0, .acq 0 3, .granted, [], 1, 0, some 4⟩, ⟨0, .setcap 2, .resized, [], -1, 0, some 2⟩,
+      ⟨0, .acq 1 1, .granted, [], -2, 0, some 2⟩]
     = some "resource/held/exceeds-capacity" := by decide
 
-/-- outstanding amount never exceeds the capacity -/
-theorem held_le_limit (cap : Int) (hcap : 0 < cap) (ops : List Op) :
+/-- the judge is not vacuous: it rejects an over-admitting trace -/
+example : judge 1 false {} [⟨0, .acq 0 1, .granted, [], 0, 0, none⟩, ⟨0, .acq 1 1, .granted, [], 0, 0, none⟩]
+    = some "resource/held/exceeds-capacity" := by decide
+
+/-- outstanding amount never exceeds the capacity, as long as nobody changes the capacity -/
+theorem held_le_limit (cap : Int) (hcap : 0 < cap) (ops : List Op) (hf : FixedCap ops) :
     amtSum (run (St.init cap) ops).held ≤ cap := by
   have inv := run_inv _ ops (init_inv cap hcap)
-  have := inv.conserve; have := inv.availNonneg
-  rw [run_cap] at *; simp [St.init] at *; omega
+  have fx := run_fixed _ ops (init_inv cap hcap) hf ⟨by simp [St.init]; omega, by simp [St.init]⟩
+  have := inv.conserve; have := fx.within
+  rw [run_cap _ _ hf] at *; simp [St.init] at *; omega
 
-/-- held plus available equals capacity after every operation list -/
+/-- with `set_capacity` in the interleaving: capacity is never *handed out* beyond the limit in
+    force — after any operation that granted something (an immediate grant, or waiters woken by a
+    release or by a capacity increase) the outstanding amount is within the current capacity … -/
+theorem no_grant_while_overcommitted (cap : Int) (hcap : 0 < cap) (ops : List Op) (o : Op)
+    (hg : (obsOf o (step (run (St.init cap) ops) o).2 (step (run (St.init cap) ops) o).1).grants = true) :
+    amtSum (step (run (St.init cap) ops) o).1.held ≤ (step (run (St.init cap) ops) o).1.cap := by
+  have inv := run_inv _ ops (init_inv cap hcap)
+  have := (step_inv _ o inv).conserve
+  have := step_grant_within _ o inv hg
+  omega
+
+/-- … and the only way to be over-committed is a `set_capacity` below the held amount: every other
+    operation keeps `held ≤ capacity` -/
+theorem overcommit_only_by_set_capacity (cap : Int) (hcap : 0 < cap) (ops : List Op) (o : Op)
+    (ho : ∀ c, o ≠ .setCapacity c)
+    (h : amtSum (run (St.init cap) ops).held ≤ (run (St.init cap) ops).cap) :
+    amtSum (step (run (St.init cap) ops) o).1.held ≤ (step (run (St.init cap) ops) o).1.cap := by
+  have inv := run_inv _ ops (init_inv cap hcap)
+  have h1 := inv.conserve
+  have h2 := (step_inv _ o inv).conserve
+  have := step_within _ o inv ho (by omega)
+  omega
+
+/-- the resource really is over-committed after a reduction below the held amount, nothing is
+    granted meanwhile, and it recovers as grants return -/
+example : (run (St.init 4) [.acquire 0 1, .acquire 1 1, .acquire 2 1, .setCapacity 1, .acquire 3 1, .release 0]).avail = -1
+    ∧ ids (run (St.init 4) [.acquire 0 1, .acquire 1 1, .acquire 2 1, .setCapacity 1, .acquire 3 1, .release 0]).waiters = [3]
+    ∧ (run (St.init 4) [.acquire 0 1, .acquire 1 1, .acquire 2 1, .setCapacity 1, .acquire 3 1,
+        .release 0, .release 1, .release 2]).held = [(3, 1)] := by decide
+
+/-- held plus available equals the capacity in force after every operation list, whatever the
+    capacity has been set to in between (`available` is negative while over-committed) -/
 theorem held_plus_available_eq_capacity (cap : Int) (hcap : 0 < cap) (ops : List Op) :
-    (run (St.init cap) ops).avail + amtSum (run (St.init cap) ops).held = cap := by
-  have := (run_inv _ ops (init_inv cap hcap)).conserve
-  rw [run_cap] at this; exact this
+    (run (St.init cap) ops).avail + amtSum (run (St.init cap) ops).held = (run (St.init cap) ops).cap :=
+  (run_inv _ ops (init_inv cap hcap)).conserve
 
 example : (run (St.init 3) [.acquire 0 2, .acquire 1 2, .release 0]).held = [(1, 2)]
     ∧ (run (St.init 3) [.acquire 0 2, .acquire 1 2, .release 0]).avail = 1 := by decide
 
-/-- a release never pushes `available` above capacity: the `_do_release` guard never fires, and
-    `0 ≤ available ≤ capacity` always -/
+example : (run (St.init 3) [.acquire 0 2, .setCapacity 1]).avail = -1
+    ∧ (run (St.init 3) [.acquire 0 2, .setCapacity 1]).cap = 1 := by decide
+
+/-- a release never pushes `available` above capacity — the `_do_release` guard never fires,
+    also not for grants handed out before a capacity reduction — and `available ≤ capacity` always -/
 theorem release_never_exceeds (cap : Int) (hcap : 0 < cap) (ops : List Op) (id : Nat) :
     (step (run (St.init cap) ops) (.release id)).2.res ≠ .err
-    ∧ 0 ≤ (run (St.init cap) ops).avail ∧ (run (St.init cap) ops).avail ≤ cap := by
+    ∧ (run (St.init cap) ops).avail ≤ (run (St.init cap) ops).cap := by
   have inv := run_inv _ ops (init_inv cap hcap)
   have hc := inv.conserve
   have hnn := amtSum_nonneg _ inv.heldPos
-  rw [run_cap] at hc
-  have hc' : (run (St.init cap) ops).avail + amtSum (run (St.init cap) ops).held = cap := hc
-  refine ⟨?_, inv.availNonneg, by omega⟩
+  refine ⟨?_, by omega⟩
   rw [step_release]; unfold release
   split
   · simp
@@ -68,13 +117,14 @@ theorem release_never_exceeds (cap : Int) (hcap : 0 < cap) (ops : List Op) (id :
     have hsum := amtSum_eraseHeld hg
     have hnn' := amtSum_nonneg (eraseHeld id (run (St.init cap) ops).held)
       (fun x hx => inv.heldPos x (mem_eraseHeld hx))
-    have := inv.conserve
     dsimp only
     split
     · omega
     · simp
 
 example : (step (run (St.init 2) [.acquire 0 2]) (.release 0)).2.res = .released := by decide
+example : (step (run (St.init 4) [.acquire 0 2, .acquire 1 2, .setCapacity 2, .release 0]) (.release 1)).2.res = .released := by
+  decide
 
 /-- blocked acquirers are woken in arrival order, nobody is skipped: the ids woken so far followed by
     the ids still waiting are exactly the ids queued so far, in queueing order -/
@@ -107,29 +157,37 @@ example : (callIds [.acquire 0 2, .acquire 1 2, .tryAcquire 2 1, .release 0]).No
     line does not fit into the free capacity (so no grant is being withheld) -/
 theorem head_not_grantable (cap : Int) (hcap : 0 < cap) (ops : List Op) (w : Nat × Int) (ws : List (Nat × Int))
     (h : (run (St.init cap) ops).waiters = w :: ws) :
-    cap - amtSum (run (St.init cap) ops).held < w.2 := by
+    (run (St.init cap) ops).cap - amtSum (run (St.init cap) ops).held < w.2 := by
   have inv := run_inv _ ops (init_inv cap hcap)
   have := inv.headBlocked w ws h
   have := inv.conserve
-  rw [run_cap] at *; simp [St.init] at *; omega
+  omega
 
 example : (run (St.init 3) [.acquire 0 2, .acquire 1 2]).waiters = [(1, 2)] := by decide
 
-/-- "every waiter whose predecessors release is served": whenever all grants have been returned
-    nobody is left waiting; and a release wakes, in that very step, every queued request that fits
-    (`head_not_grantable` holds for the state right after the release) -/
+/-- "every waiter whose predecessors release is served": whenever all grants have been returned,
+    whoever is still at the head of the line asks for more than the whole (reduced) capacity; with a
+    fixed capacity nobody is left waiting at all.  A release — and a capacity increase — wakes, in
+    that very step, every queued request that fits (`head_not_grantable` holds right after it). -/
 theorem served_if_released (cap : Int) (hcap : 0 < cap) (ops : List Op)
-    (h : (run (St.init cap) ops).held = []) : (run (St.init cap) ops).waiters = [] := by
+    (h : (run (St.init cap) ops).held = []) :
+    (∀ w ws, (run (St.init cap) ops).waiters = w :: ws → (run (St.init cap) ops).cap < w.2)
+    ∧ (FixedCap ops → (run (St.init cap) ops).waiters = []) := by
   have inv := run_inv _ ops (init_inv cap hcap)
+  have h2 := inv.conserve
+  rw [h] at h2; simp at h2
+  refine ⟨fun w ws hq => by have := inv.headBlocked w ws hq; omega, fun hf => ?_⟩
+  have fx := run_fixed _ ops (init_inv cap hcap) hf ⟨by simp [St.init]; omega, by simp [St.init]⟩
   cases hq : (run (St.init cap) ops).waiters with
   | nil => rfl
   | cons w ws =>
     have h1 := inv.headBlocked w ws hq
-    have h2 := inv.conserve
-    have h3 := (inv.waitFits w (by rw [hq]; exact List.mem_cons_self)).2
-    rw [h] at h2; simp at h2; omega
+    have h3 := fx.waitFits w (by rw [hq]; exact List.mem_cons_self)
+    omega
 
 example : (run (St.init 2) [.acquire 0 2, .acquire 1 1, .release 0, .release 1]).held = [] := by decide
+example : FixedCap [.acquire 0 2, .acquire 1 1, .release 0, .release 1] := by
+  intro o ho c; simp at ho; rcases ho with h | h | h | h <;> subst h <;> simp
 
 /-! ## Mutex -/
 open Sync
